@@ -320,6 +320,16 @@ func rowsrestGenRow(r *Rng, pref int) ([]bool, string) {
 		}
 		return row, class
 	case 5:
+		if r.Chance(0.04) { // very long rows: a clean symbol at a large scale or inside wide margins (word and 2^15 boundaries)
+			if cb, _ := rowsrestCleanRow(r, pref); cb != nil {
+				pad := r.Pick([]int{1000, 32768 - len(cb), 33000, 70000})
+				if pad < 0 {
+					pad = 500
+				}
+				l := r.Intn(pad + 1)
+				return append(append(c06White(l), cb...), c06White(pad-l)...), "long-row"
+			}
+		}
 		return rowsrestTieRow(r), "variance-tie"
 	case 6: // UPC-like runs: widths 1..4 modules at scale k, white margin
 		k := r.Pick([]int{1, 1, 2, 3})
@@ -375,7 +385,8 @@ func rowsrestPref(which int) int {
 func rowsrestErr(e error) string { return "ERR:" + errKind(e) }
 
 func rowsrestCall(c *Ctx, rd rowsrestReader, h rowsrestHints, rn int, bs []bool, class string) string {
-	row := rowFromBits(bs)
+	// the row decoders must see pixels, not the way the BitArray was built (appended, concatenated, reversed, xor-ed …)
+	row := rowFromBitsVia(bs, int(c06Fnv([]byte(bitsStr(bs)))%uint64(c20Paths)), NewRng(c06Fnv([]byte(class))+uint64(len(bs))))
 	var trace []string
 	hints := h.goHints(&trace)
 	var res *gozxing.Result
@@ -475,6 +486,16 @@ func rowsrestStrings(c *Ctx) {
 	for d := 0; d <= 9; d++ {
 		for _, a := range []string{"0000", "0001", "0009", "0010", "0099", "0100", "0101", "1000", "9999", "9990", "9991", "1234"} {
 			raws = append(raws, fmt.Sprint(d)+a)
+		}
+	}
+	if c.Thorough {
+		raws = nil
+		for v := 0; v < 100000; v++ {
+			raws = append(raws, fmt.Sprintf("%05d", v))
+		}
+	} else {
+		for i := 0; i < 3000; i++ {
+			raws = append(raws, fmt.Sprintf("%05d", c.Rng.Intn(100000)))
 		}
 	}
 	for _, raw := range raws {
